@@ -20,13 +20,19 @@ type poolInput struct {
 // their results across processes.
 func globalPool(base uint64) (ins []poolInput, tmpls []string, tmplLevels []int) {
 	r := newRng(simrt.Mix(base, 0xC15))
-	for i := 0; i < 36; i++ {
+	for i := 0; i < 48; i++ {
 		k := i % NKinds
-		v, _, _ := genVector(r, k, false)
-		if i < 18 {
+		var v string
+		switch {
+		case i < 18:
 			v, _ = genValidVector(r, k)
+		case i < 30:
+			v, _, _ = genVector(r, k, false)
+		default:
+			// decodes that abort half-way and leave a partially filled receiver
+			v, _ = genAbortVector(r, k)
 		}
-		ins = append(ins, poolInput{k, r.chance(1, 3), v})
+		ins = append(ins, poolInput{k, r.chance(1, 4), v})
 	}
 	for i := 0; i < 12; i++ {
 		lvl := i % 3
@@ -92,7 +98,7 @@ func genC15(d *RunDesc, tier string) {
 			if wl.chance(2, 3) {
 				obs = pick(wl, observerNames)
 			}
-			op := Op{K: "obs", Obj: &Ref{I: o}, Obs: obs, LB: wl.chance(1, 4)}
+			op := Op{K: "obs", Obj: &Ref{I: o}, Obs: obs, LB: wl.chance(1, 3)}
 			reps := 1
 			if wl.chance(1, 4) {
 				reps = wl.between(2, 4)
@@ -173,7 +179,9 @@ func runC15(d *RunDesc, res *RunResult) {
 					if isNilObj(p) {
 						return "twin:nil"
 					}
-					a, b := snapshot(p)+"\n"+observeAll(p), snapshot(q)+"\n"+observeAll(q)
+					// the twin is queried in the opposite order: a query that leaves something
+					// behind for the next one (a memo, a normalised field) then shows at once
+					a, b := snapshot(p)+"\n"+observeAll(p), snapshot(q)+"\n"+observeAllOrder(q, true)
 					if a != b {
 						res.addViolation("aged-vs-twin:"+kindNames[s.kind], fmt.Sprintf("%s: aged object and freshly decoded twin differ:\naged: %s\ntwin: %s", origin, clip(a, 700), clip(b, 700)), 0, i)
 						return "twin:differs"
